@@ -202,6 +202,9 @@ pub fn bases(win: bool, tier: &str, seed: u64) -> Vec<Vec<u8>> {
     for _ in 0..(if t { 300 } else { 50 }) {
         v.push(random_path(&mut rng, win));
     }
+    for _ in 0..(if t { 60 } else { 12 }) {
+        v.push(long_random_path(&mut rng, win));
+    }
     v.extend(extras());
     dedup_keep_order(v)
 }
@@ -211,6 +214,22 @@ pub fn names(tier: &str) -> Vec<Vec<u8>> {
     for x in NAME_POOL {
         v.push(x.to_vec());
     }
+    // names around every small power of two and beyond (length- and chunk-dependent code), with and
+    // without a dot, with the dot at different distances from the end, with a byte >= 0x80
+    for n in [7usize, 8, 9, 15, 16, 17, 31, 32, 33, 63, 64, 65, 255, 256, 257, 300] {
+        let base: Vec<u8> = (0..n).map(|k| b'a' + (k % 26) as u8).collect();
+        v.push(base.clone());
+        for d in [1usize, 4, 8, 9, 16, 17] {
+            if d < n {
+                let mut x = base.clone();
+                x[n - d] = b'.';
+                v.push(x);
+            }
+        }
+        let mut y = base.clone();
+        y[n / 2] = 0xe9;
+        v.push(y);
+    }
     dedup_keep_order(v)
 }
 
@@ -218,6 +237,9 @@ pub fn exts(tier: &str) -> Vec<Vec<u8>> {
     let mut v = strings_b(b".a", if tier_is_thorough(tier) { 4 } else { 3 });
     for x in [&b"txt"[..], b"tar.gz", b"\xc3\xa9", b"\xff", b"a b"] {
         v.push(x.to_vec());
+    }
+    for n in [8usize, 15, 16, 17, 33, 64, 257] {
+        v.push((0..n).map(|k| b'a' + (k % 26) as u8).collect());
     }
     v
 }
@@ -268,6 +290,17 @@ pub fn histories(win: bool, tier: &str, seed: u64, with_ext: bool, from_empty: b
     let starts = if win { dom_win_small(tier, seed) } else { strings_b(b"/.a", if t { 6 } else { 5 }) };
     let args = if win { dom_args(true, tier, seed) } else { strings_b(b"/.a", 3) };
     let xs = exts(tier);
+    let (mut starts, mut args) = (starts, args);
+    {
+        let mut r2 = Rng::new(seed ^ 0x82);
+        for _ in 0..(if t { 40 } else { 10 }) {
+            starts.push(long_random_path(&mut r2, win));
+            args.push(long_random_path(&mut r2, win));
+        }
+        for nm in names(tier).into_iter().filter(|x| x.len() >= 15) {
+            args.push(nm);
+        }
+    }
     let mut out = Vec::new();
     // exhaustive for <= 2 ops over a tiny argument set
     if !win && !from_empty {
